@@ -14,7 +14,8 @@
    [cfg_ok cfg] (decidable): distinct binary operators, function / constant names distinct, constants are not numbers.
    Purity is built into the model: operators and static functions are functions of their operands. *)
 From P2 Require Import Base.Prelude Sem.Num Lex.Token Syn.Ast Syn.Parse Syn.Render Gen.Generic Gen.GenericProofs
-  Gen.Instances Gen.InstanceProofs Generated.ExampleCfg.
+  Gen.Instances Gen.InstanceProofs Generated.ExampleCfg Syn.Full Gen.GenericFull Gen.GenericFullProofs Gen.TextExample.
+From P2 Require Lex.Tok Lex.TokProofs.
 Local Open Scope N_scope.
 
 (* ---------- any value type, any table ---------- *)
@@ -150,7 +151,87 @@ Theorem C19_float_ast : forall a args vals v,
   forall opt : bool, run_gast float_cfg args (if opt then opt_all float_cfg [] a else a) vals = ROk v.
 Proof. exact (float_ast_correct C19_float_flags_justified). Qed.
 
+(* ---------- the full grammar: let and if-then-else, from the TOKENS and from the TEXT ---------- *)
+(* Specification (Gen/GenericFull.v): [fdenote cfg rho r] - the operators' own definitions on the rendering tree r of
+   Syn/Full.v (an expression tree with explicit parentheses; identifiers, numbers, binary and prefix operators,
+   static calls, let x = v; b and if c then t else e under lexical scoping); every other form has no value.
+   [fwf r]: parentheses are left out only where the declared priorities allow it, let only where parseLet is called.
+   [accepts cfg args r] (decidable, on the tree): the tree denotes an AST on which Generate without the optimizer
+   returns no error - names resolve, no let redeclares a visible name, calls are static calls with the declared
+   arity - and identifiers are not reserved slot names.
+   The implementation side runs the parser model on the tokens (parseLet's constant propagation included), then
+   optimizer (with the optimize-at-parse-time pass of parseLet, opt_all) or no optimizer, then generator. *)
+Theorem C19_generic_tokens : forall V (cfg : gcfg V), cfg_ok V cfg = true -> regroup_ok V cfg ->
+  forall r args vals v (opt : bool),
+    fwf (pcfg_of cfg) r = true -> accepts V cfg args r = true -> length args = length vals ->
+    fdenote cfg (rho_of args vals) r = Some v ->
+    run_tree cfg opt args r vals = ROk v.
+Proof. exact generic_tree_correct. Qed.
+
+(* ... and from text in EVERY well-formed layout (C15: lexemes separated by arbitrary runs of blanks, tabs, CR, LF,
+   line and block comments) whose lexemes denote the tokens of the tree: tokenizer model, parser model, optimizer
+   on or off, generator - Generate(text).Eval(vals) is the value of the definitions *)
+Theorem C19_generic_text : forall V (cfg : gcfg V), cfg_ok V cfg = true -> regroup_ok V cfg ->
+  forall tc items r args vals v (opt : bool),
+    P2.Lex.TokProofs.ops_ok tc -> P2.Lex.TokProofs.wf_layout tc tInvalid false items ->
+    P2.Lex.TokProofs.lexeme_tokens items = fflatten (pcfg_of cfg) r ->
+    fwf (pcfg_of cfg) r = true -> accepts V cfg args r = true -> length args = length vals ->
+    fdenote cfg (rho_of args vals) r = Some v ->
+    run_text cfg tc opt args (P2.Lex.Tok.layout_text items) vals = ROk v.
+Proof. exact generic_text_correct. Qed.
+
+Theorem C19_bool_tokens : forall r args vals v (opt : bool),
+  fwf (pcfg_of bool_cfg) r = true -> accepts bool bool_cfg args r = true -> length args = length vals ->
+  fdenote bool_cfg (rho_of args vals) r = Some v -> run_tree bool_cfg opt args r vals = ROk v.
+Proof. exact (bool_tree_correct_cfg bool_cfg C19_bool_table_ok_finite). Qed.
+
+Theorem C19_bool_text : forall tc items r args vals v (opt : bool),
+  P2.Lex.TokProofs.ops_ok tc -> P2.Lex.TokProofs.wf_layout tc tInvalid false items ->
+  P2.Lex.TokProofs.lexeme_tokens items = fflatten (pcfg_of bool_cfg) r ->
+  fwf (pcfg_of bool_cfg) r = true -> accepts bool bool_cfg args r = true -> length args = length vals ->
+  fdenote bool_cfg (rho_of args vals) r = Some v ->
+  run_text bool_cfg tc opt args (P2.Lex.Tok.layout_text items) vals = ROk v.
+Proof. exact (bool_text_correct_cfg bool_cfg C19_bool_table_ok_finite). Qed.
+
+(* float: no side condition beyond exactness ([fdenote ... = Some v]: every intermediate result is representable);
+   the regrouping law of the flagged operators is C19_float_regroup_ok *)
+Theorem C19_float_tokens : forall r args vals v (opt : bool),
+  fwf (pcfg_of float_cfg) r = true -> accepts fl float_cfg args r = true -> length args = length vals ->
+  fdenote float_cfg (rho_of args vals) r = Some v -> run_tree float_cfg opt args r vals = ROk v.
+Proof. exact (float_tree_correct C19_float_flags_justified C19_float_table_ok). Qed.
+
+Theorem C19_float_text : forall tc items r args vals v (opt : bool),
+  P2.Lex.TokProofs.ops_ok tc -> P2.Lex.TokProofs.wf_layout tc tInvalid false items ->
+  P2.Lex.TokProofs.lexeme_tokens items = fflatten (pcfg_of float_cfg) r ->
+  fwf (pcfg_of float_cfg) r = true -> accepts fl float_cfg args r = true -> length args = length vals ->
+  fdenote float_cfg (rho_of args vals) r = Some v ->
+  run_text float_cfg tc opt args (P2.Lex.Tok.layout_text items) vals = ROk v.
+Proof. exact (float_text_correct C19_float_flags_justified C19_float_table_ok). Qed.
+
 (* ---------- non-vacuity ---------- *)
+(* the commented three-line program of Gen/TextExample.v
+     let x = a & b; // bind
+     if x /* test */ then !c
+     else x
+   is a well-formed layout (ex_items_wf) of a well-formed accepted tree; by the theorem, for a,b,c = true,true,false: *)
+Example C19_nonvacuous_text : forall opt : bool,
+  run_text bool_cfg bool_tc opt bool_args ex_text [true; true; false] = ROk true.
+Proof. exact (text_example C19_bool_table_ok_finite). Qed.
+
+(* let y = a + 1; if y < b then y * 2 else -y   on the float table, a = 2, b = 4: 6; a = 2, b = 0.5: -3;
+   the constant let  let k = 2; k * a  leaves no Let node (parseLet binds k as a constant) *)
+Example C19_nonvacuous_float_let_if :
+  let r := FLet [121] (FBin 3 (FIdent [97]) (FNum [49]))
+             (FIf (FBin 1 (FIdent [121]) (FIdent [98])) (FBin 5 (FIdent [121]) (FNum [50])) (FUn [45] (FIdent [121]))) in
+  fwf (pcfg_of float_cfg) r = true /\ accepts fl float_cfg float_args r = true /\
+  fdenote float_cfg (rho_of float_args [FFin 1 1; FFin 1 2]) r = Some (FFin 3 1) /\
+  run_tree float_cfg true float_args r [FFin 1 1; FFin 1 2] = ROk (FFin 3 1) /\
+  run_tree float_cfg false float_args r [FFin 1 1; FFin 1 (-1)] = ROk (FFin (-3) 0) /\
+  parse_opt float_cfg false float_args (fflatten (pcfg_of float_cfg) (FLet [107] (FNum [50]) (FBin 5 (FIdent [107]) (FIdent [97]))))
+    = POk (GOp [42] (GConst (FFin 1 1)) (GIdent [97] false)).
+Proof. vm_compute. repeat split. Qed.
+
+
 (* !(a & b) | c  written with full parentheses, a=true b=true c=false; the optimizer on *)
 Example C19_nonvacuous_bool :
   let e := SBin [124] (SUn [33] (SBin [38] (SName [97]) (SName [98]))) (SName [99]) in
@@ -185,6 +266,12 @@ Example C19_nonvacuous_float_regroup :
 Proof. vm_compute. split; reflexivity. Qed.
 
 Print Assumptions C19_generic.
+Print Assumptions C19_generic_tokens.
+Print Assumptions C19_generic_text.
+Print Assumptions C19_bool_tokens.
+Print Assumptions C19_bool_text.
+Print Assumptions C19_float_tokens.
+Print Assumptions C19_float_text.
 Print Assumptions C19_generic_ast.
 Print Assumptions C19_exec_sound.
 Print Assumptions C19_opt_sound.
